@@ -70,7 +70,7 @@ func plainUL(r *kernel.Rand) []byte {
 	case 0:
 		return nasTestpacket.GetRegistrationComplete(nil)
 	case 1:
-		return nasTestpacket.GetSecurityModeComplete(r.Bytes(r.Range(0, 40)))
+		return nasTestpacket.GetSecurityModeComplete(r.Bytes(r.Pick(r.Range(0, 40), r.Range(0, 40), r.Range(240, 300), r.Range(500, 1000))))
 	case 2:
 		sn := models.Snssai{Sst: 1, Sd: "010203"}
 		return nasTestpacket.GetUlNasTransport_PduSessionEstablishmentRequest(uint8(1+r.Intn(15)), nasMessage.ULNASTransportRequestTypeInitialRequest, "internet", &sn)
@@ -150,11 +150,11 @@ func (t *taskState) runOp(k int) (res string) {
 		res := ue.DeriveRESstarAndSetKey(ue.AuthenticationSubs, autn, r.Bytes(16), "5G:mnc001.mcc001.3gppnetwork.org", "01", "001")
 		return fmt.Sprintf("%x %x %x %x", res, ue.Kamf, ue.KnasInt, ue.KnasEnc)
 	case 7:
-		p := r.Bytes(r.Range(1, 70))
+		p := r.Bytes(r.Pick(r.Range(1, 70), r.Range(1, 70), r.Range(250, 270), r.Range(500, 1100)))
 		err := security.NASEncrypt(uint8(r.Intn(3)), key16(r.Bytes(16)), uint32(r.Intn(1<<24)), 1, uint8(r.Intn(2)), p)
 		return fmt.Sprintf("%x %v", p, err)
 	default:
-		mac, err := security.NASMacCalculate(uint8(1+r.Intn(2)), key16(r.Bytes(16)), uint32(r.Intn(1<<24)), 1, uint8(r.Intn(2)), r.Bytes(r.Range(1, 70)))
+		mac, err := security.NASMacCalculate(uint8(1+r.Intn(2)), key16(r.Bytes(16)), uint32(r.Intn(1<<24)), 1, uint8(r.Intn(2)), r.Bytes(r.Pick(r.Range(1, 70), r.Range(1, 70), r.Range(250, 270), r.Range(500, 1100))))
 		return fmt.Sprintf("%x %v", mac, err)
 	}
 }
